@@ -497,6 +497,12 @@ def registration_case(obs, rng, ctx, spec):
             plain = obs.call('get_dataset_convention', get_dataset_convention, other)
             obs.expect(plain is builtin, 'registered conventions that do not match change nothing',
                        lambda: {'got': getattr(plain, '__name__', None), 'want': builtin_name}, mech='registration-leak')
+            # ... and detecting that other dataset in between must not change who wins here (the rule is a function of the
+            # dataset's content and of the registrations, not of what was detected before)
+            again = obs.call('get_dataset_convention (again, after another dataset was detected)', get_dataset_convention, marked)
+            if not isinstance(again, Failed):
+                obs.expect(again is want, 'the winner does not depend on which datasets were detected before',
+                           lambda: dict(detail(), again=getattr(again, '__name__', None)), mech='detection-depends-on-history')
             obs.sig('reg', conv, tuple(specs), order)
             if 'b' not in SAMPLED and kind.startswith('tie') and n >= 2:
                 SAMPLED.add('b')
